@@ -38,7 +38,8 @@ type c06hook struct {
 	OnStartup *float64
 	Kube      []c06kb
 	Sched     []m
-	FailFirst int // number of failing startup executions (applies to the first execution of the hook)
+	FailFirst int   // number of failing startup executions (applies to the first execution of the hook)
+	FailAt    []int // further executions of the hook that fail (by execution index)
 }
 
 func TestC06(t *testing.T) {
@@ -131,6 +132,17 @@ func c06run(c *vlib.Case, res *vlib.Result) {
 		}
 		hooks = append(hooks, h)
 	}
+	if c.Index%4 == 2 {
+		// catalogue: one hook with two ungrouped kubernetes bindings (separate Synchronization tasks), the second
+		// in its own queue; the second binding's first Synchronization attempt fails and waits out its back-off
+		// while objects keep appearing: no Event of the second binding may reach the hook before its
+		// Synchronization has succeeded (the first binding's success must not unlock the second)
+		rel := "mm-two-bindings"
+		if !used[rel] {
+			used[rel] = true
+			hooks = append(hooks, &c06hook{Rel: rel, Kube: []c06kb{{Name: "k0", OnSync: true}, {Name: "k1", OnSync: true, Queue: "q1"}}, FailAt: []int{1}})
+		}
+	}
 	sort.Slice(hooks, func(i, j int) bool { return hooks[i].Rel < hooks[j].Rel })
 	for _, h := range hooks {
 		var cfg m
@@ -185,6 +197,9 @@ func c06run(c *vlib.Case, res *vlib.Result) {
 		}
 		hs.AddHook(h.Rel, 0o755, cfgJSON(cfg))
 		for i := 0; i < h.FailFirst; i++ {
+			hs.Plan(h.Rel, i, vhk.Directive{Exit: 1})
+		}
+		for _, i := range h.FailAt {
 			hs.Plan(h.Rel, i, vhk.Directive{Exit: 1})
 		}
 	}
@@ -458,7 +473,7 @@ func c06run(c *vlib.Case, res *vlib.Result) {
 	nk, nfail := 0, 0
 	for _, h := range hooks {
 		nk += len(h.Kube)
-		nfail += h.FailFirst
+		nfail += h.FailFirst + len(h.FailAt)
 	}
 	res.Key = fmt.Sprintf("h%d-%s-os%d-k%d-fail%d", len(hooks), equalClass, len(wantStartup), nk, nfail)
 	if c.Index < 2 {
